@@ -42,6 +42,16 @@ Proof.
   intros H. destruct (H p_bad n_x) as [b Hb]. vm_compute in Hb. discriminate.
 Qed.
 
+(* ... and that is the only failure: for EVERY pattern and name, qnmatch answers the documented meaning when no
+   range is inverted and raises re.error "bad character range" when one is (no other exception, never out of fuel) *)
+Theorem C13_inverted_range_raises :
+  forall (p n : text), wf_pattern p = false -> qnmatch n p = Err BadRange.
+Proof. exact qnmatch_inverted. Qed.
+
+Theorem C13_qnmatch_characterised :
+  forall (p n : text), qnmatch n p = if wf_pattern p then Ok (matches p n) else Err BadRange.
+Proof. exact qnmatch_characterised. Qed.
+
 (* a rule with such a pattern aborts privacyClass when the pattern loop reaches it *)
 Definition o_x : obj := {| o_full := n_x; o_name := n_x; o_has_kind := true; o_is_module := false |}.
 Theorem C13_bad_range_rule_refuted :
